@@ -9,7 +9,8 @@ META = {
                    "with no return; new() is called exactly at 0xD3 positions on data[i..]; the error set of new() is closed "
                    "({NotValid, Incomplete}), so the unreachable!() arm is dead. MsgFrameIter::next calls the scanner on data[index..] "
                    "iff index < len, adds the consumed count to index (its only store) and returns the frame unchanged. "
-                   "Together with C03 this determines the scanner's function completely. Completeness (S-cand): once the scan position holds 0xD3 nothing else decides whether new() is called there - no path from the preamble test reaches the loop head or a return without the call (both scanner idioms); I-state: fields added to MsgFrameIter never reach data / index / the result.",
+                   "Together with C03 this determines the scanner's function completely. Completeness (S-cand): once the scan position holds 0xD3 nothing else decides whether new() is called there - no path from the preamble test reaches the loop head or a return without the call (both scanner idioms); I-state: fields added to MsgFrameIter never reach data / index / the result. "
+                   "S-sem (scansem.py) decides the scanner first, by induction on the scan position for whatever loop form the code uses (iterator, index, shrinking suffix, position search): from the head state for position K every path back to the head arrives in the state for K+1 having dismissed K (byte != 0xD3 known, or new(&data[K..]) answered NotValid), every return is (K + frame_len, Some(m)) / (K, None) / (len, None) of its case, nothing can panic and the loop terminates; the template rules described above judge alone only where S-sem is undecided.",
     "assumptions": [],
 }
 
